@@ -49,12 +49,16 @@ class ScanEval(SymEval):
                 if k not in ('pos', tn, 'pos_fix') and v is not None:
                     self.ev(v, st)
             return TokVal(cls, pos, txt, e, fix is not None and T.is_const(fix, True))
-        if isinstance(e.func, ast.Name) and e.func.id == 'next' and e.args \
-                and isinstance(e.args[0], ast.GeneratorExp):
-            g = e.args[0].generators[0]
+        gen = e.args[0] if isinstance(e.func, ast.Name) and e.func.id == 'next' and e.args else None
+        if isinstance(gen, ast.Name):
+            # a generator expression bound to a local name just before: matching = (t for ...); next(matching, None)
+            gv = T.resolve_local(self.model, gen)
+            gen = gv[0] if len(gv) == 1 and isinstance(gv[0], ast.GeneratorExp) else None
+        if isinstance(gen, ast.GeneratorExp):
+            g = gen.generators[0]
             if isinstance(g.iter, ast.Attribute) and 'special' in g.iter.attr \
-                    and isinstance(e.args[0].elt, ast.Name) and isinstance(g.target, ast.Name) \
-                    and e.args[0].elt.id == g.target.id:
+                    and isinstance(gen.elt, ast.Name) and isinstance(g.target, ast.Name) \
+                    and gen.elt.id == g.target.id:
                 off = None
                 for c in g.ifs:
                     if isinstance(c, ast.Call) and isinstance(c.func, ast.Attribute) \
@@ -66,7 +70,7 @@ class ScanEval(SymEval):
                     st.facts = st.facts.add(n - 1)
                     return Seq(n, 'str', ('specialat', off))
         r = self.model.resolve_call(e)
-        if not r and isinstance(e.func, ast.Name):
+        if not r and isinstance(e.func, (ast.Name, ast.Subscript)):
             from ..model import dispatch_targets
             tg = dispatch_targets(self.model, e, T.resolve_local)
             if tg and isinstance(e._parent, ast.Return) and all(t.mod.short == 'scanner' for t in tg) \
